@@ -60,6 +60,12 @@ def make_case(rng, tier, damage, max_damage=4):
             if not any(r == clash or r.startswith(clash + "/") or clash.startswith(r + "/")
                        for r, _ in files[1:]):
                 files[0] = (clash, blob)
+    tail_empty = False
+    if not single and version == 1 and rng.random() < 0.15:
+        # the v1 stream ENDS with empty files (they contribute no block to the last piece)
+        for nm in ["~~~/zz-empty", "~~~~"][:rng.choice([1, 2])]:
+            files.append((nm, Blob.rand(1, 0)))
+        tail_empty = True
     if not single and len(files) >= 2 and rng.random() < 0.2:
         # byte-identical copies (equal roots / equal pieces): the later one is what gets damaged
         order = sorted(range(len(files)), key=lambda i: files[i][0].split("/"))
@@ -82,6 +88,9 @@ def make_case(rng, tier, damage, max_damage=4):
     case = {"files": [(rel, b.token()) for rel, b in files], "pl": pl, "version": version,
             "single": single, "source": source, "creator": rng.choice(creator),
             "via_parent": rng.random() < 0.5, "damage": []}
+    if version == 1 and source == "own" and not single and rng.random() < 0.35:
+        case["align"] = True        # create --align: BEP 47 padding entries in a v1 file list
+    dv = 3 if case.get("align") else version      # an aligned v1 stream is laid out like a hybrid's
     if source.startswith("ref") and version in (1, 3) and not single and rng.random() < 0.3:
         case["attrs"] = {rel: rng.choice(["x", "h", "xh"]) for rel, _ in files if rng.random() < 0.5}
     if not damage and rng.random() < PARENT_LIKE_NAME_P:
@@ -93,7 +102,15 @@ def make_case(rng, tier, damage, max_damage=4):
         order = [rel for rel, _ in files]
         rng.shuffle(order)
         case["v1_order"] = order
-    if damage and source == "ref-nolen" and len(files[0][1]) > 2 * pl and rng.random() < 0.7:
+    if damage and tail_empty and not case.get("v1_order") and not case.get("align") and rng.random() < 0.7:
+        # damage confined to the last (usually incomplete) piece, which the empty files follow
+        rel, blob = [(r, b) for r, b in gen.utf8_sorted(files) if len(b)][-1]
+        data = blob.bytes()
+        if data[-1]:
+            case["damage"] = [rng.choice([["flip", rel, len(data) - 1], ["trunc", rel, len(data) - 1]])]
+        else:
+            case["damage"] = [["flip", rel, len(data) - 1]]
+    elif damage and source == "ref-nolen" and len(files[0][1]) > 2 * pl and rng.random() < 0.7:
         whole = (len(files[0][1]) // pl) * pl
         to = rng.choice([whole - pl, whole] if whole < len(files[0][1]) else [whole - pl])
         if any(files[0][1].bytes()[to:]):
@@ -105,7 +122,7 @@ def make_case(rng, tier, damage, max_damage=4):
         n = len(blob)
         cuts = [c for c in (((n - 1) // pl) * pl, n // 2, n - 1, pl) if 0 < c < n] or [n - 1]
         case["damage"] = [["trunc", rel, rng.choice(cuts)]]
-    elif damage and version == 1 and not single and rng.random() < 0.15:
+    elif damage and version == 1 and not single and not case.get("align") and rng.random() < 0.15:
         order = ordered(files, 1, case.get("v1_order"))
         off, last = 0, None
         for rel, b in order:
@@ -120,20 +137,20 @@ def make_case(rng, tier, damage, max_damage=4):
             if 0 < cut < n and any(data[cut:]):
                 case["damage"] = [["trunc", rel, cut]]
         if not case["damage"]:
-            case["damage"] = make_damage(rng, files, pl, version, single, 1, case.get("v1_order"))
+            case["damage"] = make_damage(rng, files, pl, dv, single, 1, case.get("v1_order"))
     elif damage and twin_rel is not None and rng.random() < 0.7:
         n = len(dict(files)[twin_rel])
         case["damage"] = [["flip", twin_rel, rng.choice([0, n - 1, n // 2])]]
     elif damage:
-        case["damage"] = make_damage(rng, files, pl, version, single,
+        case["damage"] = make_damage(rng, files, pl, dv, single,
                                      rng.randrange(1, max_damage + 1), case.get("v1_order"),
                                      zero_ok=case.get("zero_ok", False))
     if case["damage"] and not case.get("zero_ok"):
         orig = {rel: b.bytes() for rel, b in files}
         state = apply_damage(files, case["damage"])
-        if not absent_regions_nonzero(files, orig, state, pl, version, single, case.get("v1_order")):
+        if not absent_regions_nonzero(files, orig, state, pl, dv, single, case.get("v1_order")):
             # the targeted damage would leave an absent all-zero region: the property excludes it
-            case["damage"] = make_damage(rng, files, pl, version, single, 1, case.get("v1_order"))
+            case["damage"] = make_damage(rng, files, pl, dv, single, 1, case.get("v1_order"))
     return case
 
 
@@ -274,7 +291,8 @@ def build(box, case):
     root = os.path.join(parent, name)
     mpath = os.path.join(box, "m.torrent")
     if case["source"] == "own":
-        raw = impl.create(case["creator"], root, mpath, piece_length=pl)
+        raw = impl.create(case["creator"], root, mpath, piece_length=pl,
+                          **({"align": True} if case.get("align") else {}))
     else:
         order = ordered(files, version, case.get("v1_order"))
         ref = refspec.ref_metafile(
